@@ -83,8 +83,10 @@ class Gen:
             return f"o {op} {self.atom()}"
         if c < 0.80:
             return f"{self.atom()} {op} o"
-        if c < 0.85:
+        if c < 0.83:
             return f"s {op} {r.choice([repr('b'), repr(''), 's', repr('abc')])}"
+        if c < 0.87:
+            return r.choice([f"o {op} l[{self.atom()}]", f"l[{self.atom()}] {op} o", f"l[0] {op} l[-1]"])
         if c < 0.93:
             return f"o {op} o"
         v = r.choice(["a", "b", "o", "x"])
@@ -593,8 +595,10 @@ def gen_input(rng) -> dict:
     lk = r.choice(["list", "list", "list", "tuple", "iter", "gen", "empty", "peek"])
     ln = 0 if lk == "empty" else r.choice([0, 1, 2, 3, 4])
     items = [r.choice([0, 1, 2, 3, -1, 5, 2**53 + 1, "nan", 1.5]) for _ in range(ln)]
+    if ln and r.random() < 0.12:   # objects with partial / raising comparison protocols as elements
+        items[r.randrange(ln)] = {"adv": r.choice(["adv", "advfull"]), "mode": r.choice(["plain", "raise", "notimpl"]), "val": r.choice([0, 1, 2])}
     ok = r.choice(["none", "int", "adv", "adv", "advfull", "advfull", "str", "lstr", "nan", "list", "iter", "big", "tuple", "bytes", "set",
-                   "opstr", "opstr", "opstrsw", "opbytes", "peek", "peek", "attrobj"])
+                   "opstr", "opstr", "opstrsw", "opbytes", "peek", "peek", "attrobj", "complex", "big"])
     o = {"k": ok}
     if ok in ("adv", "advfull"):
         o["mode"] = r.choice(["plain", "plain", "raise", "notimpl", "nonbool", "never"])
@@ -633,7 +637,8 @@ def materialise(spec: dict):
         s = make_op(sk["k"], sk["v"], sk.get("mode", "plain"))
     else:
         s = sk["v"] if sk["k"] == "str" else (sk["v"].encode() if sk["k"] == "bytes" else LoggingStr(sk["v"]))
-    items = [_num(v) for v in spec["l"]["v"]]
+    items = [(Adv if v["adv"] == "adv" else AdvFull)(v["mode"], v["val"]) if isinstance(v, dict) else _num(v)
+             for v in spec["l"]["v"]]
     iters = []
     lk = spec["l"]["k"]
     if lk in ("list", "empty"):
@@ -683,6 +688,8 @@ def materialise(spec: dict):
         iters.append(o)
     elif k == "attrobj":
         o = AttrObj()
+    elif k == "complex":
+        o = complex(1, 2)
     else:
         o = 10**400
     return (a, b, s, l, o), iters
